@@ -43,6 +43,13 @@ REGISTRY = {
     "C18": ("checks.c18", "run"),
     "C19": ("checks.c19", "run"),
     "C20": ("checks.c20", "run"),
+    # specification growth beyond the listed properties (DESIGN.md section 12): not registered in
+    # MANIFEST.json, evidence under evidence/ext/
+    "X01": ("checks.x01", "run"),
+    "X02": ("checks.x02", "run"),
+    "X03": ("checks.x03", "run"),
+    "X04": ("checks.x04", "run"),
+    "X05": ("checks.x05", "run"),
 }
 
 
